@@ -14,6 +14,7 @@ from .core import HarnessError, rm
 from . import storeh
 
 MB = 1024 * 1024
+OVK = "ov/k#1"  # the shared key override: contains the separator characters of the key#version encoding
 
 KEYS = [("fn#1", 1), ("fn#1", 2), ("fn#10", 1), ("fn1#1", 1)]
 
@@ -614,17 +615,17 @@ def alphabet(profile, keys, classes, small=False):
         ops.append(("ism", ki))
         ops.append(("fc", ki))
     if not small:
-        ops.append(("memo", 0, "s", "k1"))
-        ops.append(("memo", k2, "t", "k1"))
-        ops.append(("memo", 0, "N", "k1"))
+        ops.append(("memo", 0, "s", OVK))
+        ops.append(("memo", k2, "t", OVK))
+        ops.append(("memo", 0, "N", OVK))
         if profile.startswith("c07"):
-            ops.append(("memo", k2, "D", "k1"))
-            ops.append(("memo", 0, "P", "k1"))
+            ops.append(("memo", k2, "D", OVK))
+            ops.append(("memo", 0, "P", OVK))
             ops.append(("memo_fault", 0, "D"))
             ops.append(("memo_fault", k2, "s"))
             # the same two override writes by calls whose bodies seed the process-wide PRNG before returning
-            ops.append(("memo", 0, "s", "k1", "seeded"))
-            ops.append(("memo", k2, "t", "k1", "seeded"))
+            ops.append(("memo", 0, "s", OVK, "seeded"))
+            ops.append(("memo", k2, "t", OVK, "seeded"))
         ops.append(("wmeta", 0, "log", False))
         ops.append(("wmeta", 0, "log", True))
         ops.append(("wmeta", k2, "log", False))
